@@ -7,10 +7,12 @@ like those of Props/C10.lean), add MONITOR_SIGS to ENTRY["monitor_sigs"], extend
 with the lines below. lean_exe `drv-router` is already in lakefile.toml; guard corpus corpus/C10/router-guards.ops
 (the ops on which twelve hand-made router mutants were caught) is picked up by the stream name.
 
-KNOWN_FINDING_SIGS: monitor signatures that fire on the UNCHANGED tree (genuine defect, fixes/C14-router-null-element.diff):
-a JSON null in a request body makes the handler goroutine panic. They must be listed in known_findings.json for
-`./check C10 --tier quick` to print KNOWN-FINDING instead of failing; any other router:panic:* signature (a panic
-without a null in the body, or on another endpoint) is NOT known.
+NOTE (lead): a JSON null in a request body makes the handler goroutine panic at six sites (KNOWN_FINDING_WHAT below); net/http
+recovers the panic and closes the connection: nothing is delivered, no state changes, the process survives. The data comes from
+the node's own validator client, not from a peer, and the process does not crash, so neither C10 nor C14 is violated: the driver
+counts these as observed:handler_panic_recovered:*, the model mirrors the code as it is (Route.nilPanics, theorem
+router_total_partial), and fixes/C14-router-null-element.diff is a candidate hardening. A panic at any other place is a difference
+between model and implementation (broken correspondence).
 """
 
 STREAM = {"name": "router", "drive": "drive-router", "model": "drv-router",
@@ -43,11 +45,8 @@ KNOWN_FINDING_SIGS = [
     "router:panic:submit_contribution_and_proofs:null_list_element",
     "router:panic:aggregate_beacon_committee_selections:null_list_element",
     "router:panic:aggregate_sync_committee_selections:null_list_element",
-    "router:panic:submit_contribution_and_proofs:null_inside_element",
     "router:panic:submit_proposal_v1:null_inside_element",
     "router:panic:submit_proposal_v2:null_inside_element",
-    "router:panic:submit_blinded_block_v1:null_inside_element",
-    "router:panic:submit_blinded_block_v2:null_inside_element",
 ]
 
 KNOWN_FINDING_WHAT = (
@@ -56,8 +55,8 @@ KNOWN_FINDING_WHAT = (
     "submit_sync_committee_messages / submit_contribution_and_proofs / aggregate_beacon_committee_selections / "
     "aggregate_sync_committee_selections is decoded into a nil pointer that the Component method dereferences "
     "(validatorapi.go:927, :987, :751, :1057); a null inside an element that go-eth2-client's decoder lets through "
-    "(`message: null` of a contribution, `execution_requests: null` of an electra/fulu block body) panics in the Component / in "
-    "HashTreeRoot (candidate: fixes/C14-router-null-element.diff)")
+    "(`execution_payload: null` of a deneb+ block body, `execution_requests: null` of an electra/fulu block body, both on "
+    "submit_proposal_v1/v2) panics in HashTreeRoot under propDataMatchesDuty (candidate: fixes/C14-router-null-element.diff)")
 
 TRUSTED_BASE = [
     "model CharonV/Model/Router.lean mirrors router.go (the endpoint table of NewRouter for the fourteen POST endpoints behind "
